@@ -111,7 +111,7 @@ def judge(R, label, fname, impl, ref, tags, close=False, sub=None):
 
 def cases(tier, seed):
     out = []
-    for shape in SHAPES:
+    for shape in SHAPES + ([(4,), (3, 3), (2, 3, 2), (1, 1, 1), (3, 1, 2)] if tier == "thorough" else []):
         for rot in (0, 1, 2):
             for var in ("canon", "T", "zeroterm"):
                 if var == "T" and len(shape) < 2:
